@@ -7,7 +7,7 @@ import traceback
 from .core import *
 from .classtable import ClassTable, Module, FuncInfo
 from .typesys import TypeSys
-from .interp import (Interp, InterpExpr, InterpComp, InterpStmt, InterpCall, Frame, EXEC, GENERIC, SPEC, I, B, R, arr,
+from .interp import (Interp, InterpExpr, InterpComp, InterpStmt, InterpCall, Frame, EXEC, GENERIC, SPEC, SPECULATE, I, B, R, arr,
                      PathEnd)
 from .builtins import InterpBuiltins
 from .hooks import Registry, Contract
@@ -176,6 +176,13 @@ class Engine(Interp, InterpExpr, InterpComp, InterpStmt, InterpCall, InterpBuilt
 
     # ------------------------------------------------------------------ modular calls
     def call_by_contract(self, con, fi, args, kwargs, line, selfv=None):
+        if self.mode == SPECULATE:
+            raise SpeculationFailed()
+        if self.mode == GENERIC:
+            # a modular call for a *generic* element would yield one fresh result for all elements and could not fork
+            # the callee's exceptional outcomes: refuse rather than be unsound
+            raise Unsupported(f'call of {con.target} (by contract) inside a summarised comprehension / generic element '
+                              f'evaluation at line {line}: give the enclosing loop an invariant or inline the callee')
         self.by_contract.add(con.target)
         vars_ = self.bind_params(fi, args, kwargs, line)
         bindings = dict(vars_)
